@@ -13,7 +13,9 @@ On a broken proof / correspondence the finder runs the implementation against th
 import json
 import os
 import random
+import shutil
 import subprocess
+import tempfile
 import threading
 from collections import deque
 from concurrent.futures import ThreadPoolExecutor
@@ -1337,7 +1339,22 @@ def run(ctx):
                                    extra_srcs=["app/texel/enginecontrol.cpp", "app/texel/uciprotocol.cpp"])
     ml_exe = coqbuild.extract("ExtractDraw.v", "draw_driver.ml", "draw_driver")
     eng_exe = cbuild.build_engine("random", 1)
-    ctx.log("built harness, model and engine")
+    # private copies: the shared build caches are purged by other checks during long runs
+    rundir = tempfile.mkdtemp(prefix="c11-run-", dir=os.path.join(VERIF, ".cache"))
+    try:
+        exes = []
+        for e in (cpp_exe, ml_exe, eng_exe):
+            d = os.path.join(rundir, os.path.basename(e))
+            shutil.copy2(e, d)
+            exes.append(d)
+        ctx.log("built harness, model and engine")
+        run_stages(ctx, info, proof_broken, *exes)
+    finally:
+        shutil.rmtree(rundir, ignore_errors=True)
+
+
+def run_stages(ctx, info, proof_broken, cpp_exe, ml_exe, eng_exe):
+    rng = ctx.rng
 
     dis, bad = [], []
     # ---- (a) ----
@@ -1365,7 +1382,7 @@ def run(ctx):
     ctx.sample({"request": rep_line(tuples[-1])[:200], "note": "R hmc hash size firstNew n entries -> 0/1"})
     ctx.log("(a) %d tuples done, %d model disagreements, %d spec failures" % (len(tuples) + len(mal), len(dis), len(bad)))
     # ---- (b) ----
-    seeds = [rng.getrandbits(48) for _ in range(ctx.scale(300, 6000))]
+    seeds = [rng.getrandbits(48) for _ in range(ctx.scale(300, 4000))]
     games, d, b = stage_games(ctx, cpp_exe, ml_exe, seeds)
     dis += d
     bad += b
